@@ -130,6 +130,17 @@ func (cls *CachedLocations) Open(ctx *Context, sys *System, name string, check b
 
 	loc, dead := cls.expire(ctx, sys, name, false)
 
+	if loc == nil && !dead {
+		if cl, have := cls.locs[name]; have {
+			// Somebody else is opening this location right now
+			// (the entry is there but the location isn't yet).
+			// Share that entry instead of opening the location
+			// a second time.
+			cls.Unlock()
+			return cl.Get(ctx, sys, name, check)
+		}
+	}
+
 	var err error
 	if loc == nil || dead {
 		Log(INFO, ctx, "CachedLocations.Open", "name", name, "cached", "empty")
